@@ -36,7 +36,8 @@ def step (j : Json) : R Json := do
   | "clip" =>
     let poly ← (← fRatss j "poly").mapM toPt
     let s ← getSeg j
-    pure (obj [("raw", ofList ofIv (clipSimpleRaw poly s)), ("merged", ofList ofIv (clipSimple poly s))])
+    pure (obj [("raw", ofList ofIv (clipSimpleRaw poly s)), ("merged", ofList ofIv (clipSimple poly s)),
+               ("raw_std", ofList ofIv (clipSimpleRawStd poly s))])
   | "clip_convex" =>
     let poly ← (← fRatss j "poly").mapM toPt
     let s ← getSeg j
